@@ -158,7 +158,7 @@ Definition rc_params : params :=
   mkParams 0 "https://c1.example/cb" "" "code" "openid email" "st" "" PkEmpty "" 0 "" 0 "" [].
 Definition rc_cred : cred := mkCred 1 true.
 Definition rc_treq (code refresh auth_req : id) : treq :=
-  mkTReq rc_cred no_bind "" code (if is_nil code then "" else "https://c1.example/cb") refresh PkEmpty auth_req HgOk BaApprove [].
+  mkTReq rc_cred no_bind "" code (if is_nil code then "" else "https://c1.example/cb") refresh PkEmpty auth_req HgOk BaApprove [] AsNone.
 Definition rc_authorize : op := OpAuthorize (mkAReq 1 rc_params true (PolSuccess "alice" "openid email" [])).
 
 (* authorization code: AByCode ... ADel *)
